@@ -67,6 +67,17 @@ fn get_node_cover_range_impl(
         SyntaxKind::Markup => Mode::Markup,
         SyntaxKind::CodeBlock => Mode::Code,
         SyntaxKind::Equation => Mode::Math,
+        // Inside delimiters a line break does not end the expression.
+        SyntaxKind::Parenthesized
+        | SyntaxKind::Array
+        | SyntaxKind::Dict
+        | SyntaxKind::Args
+        | SyntaxKind::Params
+        | SyntaxKind::Destructuring
+            if !matches!(mode, Mode::Math) =>
+        {
+            Mode::CodeCont
+        }
         _ => mode,
     };
     for child in node.children() {
